@@ -363,6 +363,17 @@ def execute_model(sc) -> Result:
                 check_identity(res, run2.rec, readback.Records(readback.list_output_files(d, "warm")))
                 rows = {r["tag"]: r for r in sc["release"]["rows"]}
                 first = run2.rec.snaps[0]["npid"] if run2.rec.snaps else 0
+                # per-particle values written by the first run and read back: the identifiers released before the
+                # restart keep them (whatever the type - a time-typed variable goes through the file as a number)
+                if run.rec.snaps and run2.rec.snaps:
+                    a_, b_ = run.rec.snaps[-1], run2.rec.snaps[0]
+                    for name in b_["pvars"]:
+                        if name == "pw" or name not in a_["vars"]:
+                            continue
+                        va, vb = a_["vars"][name][:first], b_["vars"][name][:first]
+                        if len(va) == len(vb) == first and first and not _same_values(va, vb):
+                            res.add(Violation("C05.particle_var", None, f"{name} of the identifiers released before the restart",
+                                              vb, f"{va} (as the first run had them)"))
                 for sn in run2.rec.snaps:
                     pw, pid, tag = sn["vars"].get("pw"), sn["vars"]["pid"], sn["vars"].get("tag")
                     if pw is None or tag is None or len(tag) != len(pid):
